@@ -384,8 +384,9 @@ func runCrash(c *Ctx) {
 		}
 	}
 	// regression seeds: the two repaired panics and the other baseline observations
-	for _, q := range []string{"1 + (label $l | .)", ".[]", "first(.[])", "limit(1;.[])", "label $f|1, break $f", "path(.[])", "{}|.[]"} {
-		for _, in := range []any{nil, []any{}, map[string]any{}, []any{1}} {
+	for _, q := range []string{"1 + (label $l | .)", ".[]", "first(.[])", "limit(1;.[])", "label $f|1, break $f", "path(.[])", "{}|.[]",
+		"path([][])", "path({}[])", "path([][].a)", "path(scan(\"\"))", ".[]|error", "path(..|error)"} {
+		for _, in := range []any{nil, []any{}, map[string]any{}, []any{1}, ""} {
 			submit("seed", libCase(q, in, nil))
 		}
 	}
